@@ -96,6 +96,8 @@ type Driver struct {
 	Trace    []string
 	keepTrace bool
 	PollNo   int
+	lastPoll time.Time
+	Hold     map[int]bool // clients the profile's own run loop has not released yet
 	Round    int
 	wl       interface{}
 }
@@ -554,7 +556,7 @@ func (d *Driver) clientFinished(c *ClientState) bool {
 }
 
 func (d *Driver) startable(c *ClientState) bool {
-	if c.Connected {
+	if c.Connected || d.Hold[c.Idx] {
 		return false
 	}
 	if c.Plan.StartAfterEvents {
@@ -975,12 +977,18 @@ func (d *Driver) nothingHeld() bool {
 }
 
 // fairRun: strictly fair, fault-free scheduling in rounds of 1 fake ms (liveness profiles).
-func (d *Driver) fairRun(maxRounds int, done func() bool) {
+func (d *Driver) fairRun(maxRounds int, done func() bool) { d.fairRunTick(maxRounds, done, time.Millisecond) }
+
+// fairRunTick is fairRun with a configurable round length.
+func (d *Driver) fairRunTick(maxRounds int, done func() bool, tick time.Duration) {
 	d.phase = "fair"
 	d.WorkStart = time.Now()
-	lastPoll := time.Now()
-	for d.Round = 1; d.Round <= maxRounds; d.Round++ {
-		d.Step = d.Round
+	if d.lastPoll.IsZero() {
+		d.lastPoll = time.Now()
+	}
+	for n := 0; n < maxRounds; n++ {
+		d.Round++
+		d.Step++
 		d.fireEvents()
 		for _, c := range d.Clients {
 			if d.startable(c) {
@@ -990,15 +998,15 @@ func (d *Driver) fairRun(maxRounds int, done func() bool) {
 				d.send(c, n)
 			}
 		}
-		if d.K.AnyReady() || time.Since(lastPoll) >= 200*time.Millisecond {
+		if d.K.AnyReady() || time.Since(d.lastPoll) >= 200*time.Millisecond {
 			d.Poll()
-			lastPoll = time.Now()
+			d.lastPoll = time.Now()
 		}
 		d.pumpBackends()
 		// the proxy may need several polls to drain its task queue (eventfd wake-ups)
 		for i := 0; i < 3 && d.K.AnyReady(); i++ {
 			d.Poll()
-			lastPoll = time.Now()
+			d.lastPoll = time.Now()
 		}
 		for _, c := range d.Clients {
 			if n := d.recvable(c); n > 0 {
@@ -1009,6 +1017,6 @@ func (d *Driver) fairRun(maxRounds int, done func() bool) {
 		if done != nil && done() {
 			return
 		}
-		d.sleep(time.Millisecond)
+		d.sleep(tick)
 	}
 }
